@@ -326,6 +326,7 @@ class Engine:
         if all(is_c(b) for b in bs):
             v = sum(b << (8*i) for i, b in enumerate(bs))
             return NULL if (isptr and v == 0) else v
+        if len(bs) == 1: return simp(bs[0])
         return simp(z3.Concat(*[bv(b, 8) for b in reversed(bs)]))
 
     def store(self, st, p, nbytes, v):
